@@ -12,42 +12,59 @@ let field line key =
   | Some p -> let e = (try String.index_from line p ' ' with Not_found -> n) in String.sub line p (e - p)
 let ints s = List.map int_of_string (String.split_on_char ',' s)
 let b i = i <> 0
-let oval big cpy beh k = { vbig = b big; vcpy = b cpy; vbeh = n_of_int beh; vpay = z_of_int k; vcalls = Z0 }
+let oval big cpy aln beh k = { vbig = b big; vcpy = b cpy; valn = b aln; vbeh = n_of_int beh; vpay = z_of_int k; vcalls = Z0 }
 let nat = nat_of_int
-let sop_of nu s =
+let ios = int_of_string
+let sxop_of nu s =
   match String.split_on_char ',' s with
-  | "st" :: r -> (match List.map int_of_string r with
-      | [j; big; cpy; beh; k; mv; via] ->
+  | ("st" | "sx" as nm) :: r -> (match List.map ios r with
+      | [j; big; cpy; beh; k; mv; via; aln] ->
         let cpy = if j >= nu then 1 else cpy in
-        SStore (nat j, oval big cpy beh k, b mv, via = 0)
+        if nm = "st" then SX (SStore (nat j, oval big cpy aln beh k, b mv, via = 0))
+        else SXStoreThrow (nat j, oval big cpy aln beh k, via = 0)
       | _ -> failwith "st")
-  | ["mv"; j; i; _] -> SMove (nat (int_of_string j), nat (int_of_string i))
-  | ["ma"; j; i; _] -> SMoveFromAny (nat (int_of_string j), nat (int_of_string i))
-  | ["cp"; j; i; _] -> SCopy (nat (int_of_string j), nat (int_of_string i))
-  | ["rs"; j] -> SReset (nat (int_of_string j))
-  | ["cr"; j] -> SConnectRv (nat (int_of_string j))
-  | ["cl"; j] -> SConnectLv (nat (int_of_string j))
+  | ["mv"; j; i; _] -> SX (SMove (nat (ios j), nat (ios i)))
+  | ["ma"; j; i; _] -> SX (SMoveFromAny (nat (ios j), nat (ios i)))
+  | ["cp"; j; i; _] -> SX (SCopy (nat (ios j), nat (ios i)))
+  | ["ns"; j; i; _] -> SX (SNest (nat (ios j), nat (ios i)))
+  | ["mx"; j; i; _] -> SXMoveThrow (nat (ios j), nat (ios i))
+  | ["ax"; j; i; _] -> SXMoveFromAnyThrow (nat (ios j), nat (ios i))
+  | ["cx"; j; i; _] -> SXCopyThrow (nat (ios j), nat (ios i))
+  | ["nx"; j; i; _] -> SXNestThrow (nat (ios j), nat (ios i))
+  | ["rs"; j] -> SX (SReset (nat (ios j)))
+  | ["cr"; j] -> SX (SConnectRv (nat (ios j)))
+  | ["rx"; j] -> SXConnectRvThrow (nat (ios j))
+  | ["cl"; j] -> SX (SConnectLv (nat (ios j)))
   | _ -> failwith ("sop " ^ s)
-let fop_of s =
+let sop_of nu s = match sxop_of nu s with SX op -> Some op | _ -> None
+let tq q = if q = 0 then None else
+  let q = q - 1 in Some ((b ((q lsr 2) land 1), b ((q lsr 1) land 1)), b (q land 1))
+let gop_of s =
   match String.split_on_char ',' s with
-  | "st" :: r -> (match List.map int_of_string r with
-      | [j; big; cpy; beh; k; mv; via] -> FStore (nat j, oval big cpy beh k, b mv, via = 0)
+  | ("st" | "sx" as nm) :: r -> (match List.map ios r with
+      | [j; big; cpy; beh; k; mv; via; aln] ->
+        if nm = "st" then GF (FStore (nat j, oval big cpy aln beh k, b mv, via = 0))
+        else GStoreThrow (nat j, oval big cpy aln beh k, via = 0)
       | _ -> failwith "st")
-  | ["cc"; j; i] -> FCopyCtor (nat (int_of_string j), nat (int_of_string i))
-  | ["mc"; j; i] -> FMoveCtor (nat (int_of_string j), nat (int_of_string i))
-  | ["ca"; j; i] -> FCopyAssign (nat (int_of_string j), nat (int_of_string i))
-  | ["ma"; j; i] -> FMoveAssign (nat (int_of_string j), nat (int_of_string i))
-  | ["sw"; j; i] -> FSwap (nat (int_of_string j), nat (int_of_string i))
-  | ["rs"; j; _] -> FReset (nat (int_of_string j))
-  | ["iv"; j; a] -> FInvoke (nat (int_of_string j), z_of_int (int_of_string a))
+  | "nf" :: r -> (match List.map ios r with
+      | [j; big; cpy; beh; k; ie; mvi; mv; _; aln] ->
+        GF (FStoreFn (nat j, oval big cpy aln beh k, b ie, b mvi, b mv))
+      | _ -> failwith "nf")
+  | ["tg"; j; q] -> GTarget (nat (ios j), tq (ios q))
+  | ["cc"; j; i] -> GF (FCopyCtor (nat (ios j), nat (ios i)))
+  | ["kx"; j; i] -> GCopyCtorThrow (nat (ios j), nat (ios i))
+  | ["mc"; j; i] -> GF (FMoveCtor (nat (ios j), nat (ios i)))
+  | ["ca"; j; i] -> GF (FCopyAssign (nat (ios j), nat (ios i)))
+  | ["cx"; j; i] -> GCopyAssignThrow (nat (ios j), nat (ios i))
+  | ["ma"; j; i] -> GF (FMoveAssign (nat (ios j), nat (ios i)))
+  | ["sw"; j; i] -> GF (FSwap (nat (ios j), nat (ios i)))
+  | ["rs"; j; _] -> GF (FReset (nat (ios j)))
+  | ["iv"; j; a] -> GF (FInvoke (nat (ios j), z_of_int (ios a)))
   | _ -> failwith ("fop " ^ s)
-let fxop_of s =
-  match String.split_on_char ',' s with
-  | ["cx"; j; i] -> FXCopyAssignThrow (nat (int_of_string j), nat (int_of_string i))
-  | _ -> FX (fop_of s)
+let fop_of s = match gop_of s with GF op -> Some op | _ -> None
 let out_str = function
   | ONone -> "-" | OValue v -> "V" ^ string_of_int (int_of_z v) | OError e -> "E" ^ string_of_int (int_of_z e)
-  | OStopped -> "S" | OThrewBad -> "TB" | OThrew e -> "T" ^ string_of_int (int_of_z e)
+  | OStopped -> "S" | OThrewBad -> "TB" | OThrew e -> "T" ^ string_of_int (int_of_z e) | OUndef -> "UNDEF"
 let ev_str = function
   | ECtor i -> "C" ^ string_of_int (int_of_nat i)
   | ECopy (i, s) -> "K" ^ string_of_int (int_of_nat i) ^ "<" ^ string_of_int (int_of_nat s)
@@ -63,29 +80,51 @@ let emit kind id tr fin =
 let emit_spec kind id tr =
   Printf.printf "SPEC %s %s %s\n" kind id
     (String.concat ";" (List.map (fun (o, em) -> out_str o ^ "|" ^ bits em) tr))
+let all_some l = List.for_all (fun x -> x <> None) l
+let get = function Some x -> x | None -> failwith "get"
+let nn i = n_of_int i
+let types_line line =
+  let sbo = field line "sbo" = "1" in
+  let ptr = ios (field line "ptr") in
+  let items = List.filter (fun s -> s <> "") (String.split_on_char ';' (field line "items")) in
+  let dec it = match String.split_on_char ',' it with
+    | [k; size; align; big; aln] ->
+      let size = ios size and align = ios align and big = ios big <> 0 and aln = ios aln <> 0 in
+      if k = "F" then
+        let inl = function_inline (nn size) in
+        (if inl then "1" else "0") ^ (if inl = not big then "" else "!")
+      else
+        let wk = if k = "U" then KUnique else if k = "A" then KAny else KOpState in
+        let e = sender_embeds sbo wk (nn size) (nn align) in
+        (if e then "1" else "0") ^ (if class_ok sbo wk (nn size) (nn align) big aln then "" else "!")
+    | _ -> "?" in
+  Printf.printf "OUT TYPES t %s%s\n" (String.concat "" (List.map dec items))
+    (if nn ptr = ptr_size then "" else "!ptr")
 let () =
   try
     while true do
       let line = input_line stdin in
       match String.split_on_char ' ' line with
+      | "IN" :: "TYPES" :: _ -> types_line line
       | "IN" :: "SND" :: id :: _ ->
         let sbo = field line "sbo" = "1" in
         let nu = int_of_string (field line "nu") and na = int_of_string (field line "na") in
-        let ops = List.map (sop_of nu) (List.filter (fun s -> s <> "") (String.split_on_char ';' (field line "ops"))) in
-        let (tr, fin) = trace (sstep sbo) ops (init (nat (nu + na))) in
+        let strs = List.filter (fun s -> s <> "") (String.split_on_char ';' (field line "ops")) in
+        let ops = List.map (sxop_of nu) strs in
+        let (tr, fin) = trace (sxstep sbo) ops (init (nat (nu + na))) in
         emit "SND" id tr fin;
-        emit_spec "SND" id (spec_trace sspec ops (List.init (nu + na) (fun _ -> None)))
-      | "IN" :: "FUNX" :: id :: _ ->
+        let plain = List.map (sop_of nu) strs in
+        if all_some plain then
+          emit_spec "SND" id (spec_trace sspec (List.map get plain) (List.init (nu + na) (fun _ -> None)))
+      | "IN" :: (("FUN" | "FUNX" | "FUNA" | "FUNK" | "FUNL") as kind) :: id :: _ ->
         let n = int_of_string (field line "n") in
-        let ops = List.map fxop_of (List.filter (fun s -> s <> "") (String.split_on_char ';' (field line "ops"))) in
-        let (tr, fin) = trace fxstep ops (init (nat n)) in
-        emit "FUNX" id tr fin
-      | "IN" :: "FUN" :: id :: _ ->
-        let n = int_of_string (field line "n") in
-        let ops = List.map fop_of (List.filter (fun s -> s <> "") (String.split_on_char ';' (field line "ops"))) in
-        let (tr, fin) = trace fstep ops (init (nat n)) in
-        emit "FUN" id tr fin;
-        emit_spec "FUN" id (spec_trace fspec ops (List.init n (fun _ -> None)))
+        let strs = List.filter (fun s -> s <> "") (String.split_on_char ';' (field line "ops")) in
+        let ops = List.map gop_of strs in
+        let (tr, fin) = gtrace ops (xinit (nat n)) in
+        emit kind id tr fin.xs;
+        let plain = List.map fop_of strs in
+        if all_some plain then
+          emit_spec kind id (spec_trace fspec (List.map get plain) (List.init n (fun _ -> None)))
       | _ -> ()
     done
   with End_of_file -> ()
